@@ -685,8 +685,8 @@ def _h_select_cont(ctx, k, labelset, sizes, has_nan, nan_size, max_n_mod, mfm, d
                     continue
                 members.add(i)
             groups.append(frozenset(members))
-        if conc:  # concrete twin: floats carry no identity; recover the grouping from the index labels
-            groups = [frozenset(stage["cands_by_index"][tuple(yv.index)][n]) for n in range(len(yv))] if tuple(yv.index) in stage.get("cands_by_index", {}) else groups
+        if conc:  # concrete twin: floats carry no identity; the measure is requested once per combination, in order
+            groups = [frozenset(g) for g in stage["queue"].pop(0)]
         key = frozenset(groups)
         # the lists handed to the measure are exactly the concatenated y-lists of the groups
         if not conc:
@@ -722,6 +722,7 @@ def _h_select_cont(ctx, k, labelset, sizes, has_nan, nan_size, max_n_mod, mfm, d
                 grp.append(mem)
             by_index[lead] = grp
         stage["cands_by_index"] = by_index
+        stage["queue"] = [by_index_list for by_index_list in _ordered_groups(combinations, labels, stage, k, dropna)]
         return orig_gba(feature, order_, xagg_, combinations, xagg_dev=xagg_dev, dropna=dropna)
 
     c._get_best_association = gba_wrapper
@@ -819,6 +820,24 @@ def _h_select_cont(ctx, k, labelset, sizes, has_nan, nan_size, max_n_mod, mfm, d
         check_history(ctx, c, labels, k, got_groups, groups1, "kruskal", stage["done2"], has_nan)
     return dict(counters={outcome: 1}, sample=dict(k=k, sizes=sizes, groups=got_groups, outcome=outcome), result=dict(groups=[sorted(g) for g in got_groups]),
                 twin_distinct=[n for n in getattr(ctx, "symbols", {}) if n.startswith("meas_")])
+
+
+def _ordered_groups(combinations, labels, stage, k, dropna):
+    out = []
+    for comb in combinations:
+        grp = []
+        for g in comb:
+            mem = []
+            for lab in g:
+                if lab == NAN:
+                    mem.append(k)
+                elif dropna:
+                    mem += [i for s1 in stage["stage1"] if labels[s1[0]] == lab for i in s1]
+                else:
+                    mem.append(labels.index(lab))
+            grp.append(mem)
+        out.append(grp)
+    return out
 
 
 def obligation_cont(tier, props, name):
